@@ -290,6 +290,30 @@ Theorem C12_like_written_zero_iff :
 Proof. exact like_written_zero_iff. Qed.
 Print Assumptions C12_like_written_zero_iff.
 
+(* the same with FILL = n (...) and TRCL = (...) allowed on any card of the chain
+   (the lattice form FILL = i:j ... excepted): [loc_imps] reads each card's
+   tokens with every keyword taking its arguments locally - IMP + number; inert
+   words, U, RHO, MAT, LAT (li_any); FILL / TRCL with their numeric parameters up
+   to the next token that does not start like a number (li_num, lemmas
+   fill_local / trcl_local) - and every card after the base starts with a
+   keyword (hd_not_num). scan_imps lists are loc_imps (scan_imps_local). *)
+Theorem C12_like_written_local_zero_iff :
+  forall (P : prims R) (imp_cards : list (string * list string)) (cards : list card)
+         (lats : list (Z * list (Z * Z))) (cells : list (Z * cell (T:=R))) (skipped : list Z)
+         (r : nat) (key : Z) (b : body) (opts : string) (l : list string)
+         (ess : list (list (imp_entry (T:=R)))),
+    parse_cells RS P imp_cards cards lats = Ok (cells, skipped) ->
+    nth_error (dict_of Z.eqb cards) r = Some (key, (b, opts)) ->
+    chain_cards (S (List.length (dict_of Z.eqb cards))) (dict_of Z.eqb cards) b = Ok l ->
+    Forall (fun c => clean_opts (snd (snd c))) (dict_of Z.eqb cards) ->
+    Forall2 (fun o es => loc_imps RS P (option_tokens o) es) (rev l ++ [opts]) ess ->
+    Forall (fun o => hd_not_num (option_tokens o)) (tl (rev l ++ [opts])) ->
+    List.concat ess <> [] -> Forall (fun e => 0 <= snd e)%R (List.concat ess) ->
+    (In key skipped <->
+     forall p, In p (named (List.concat ess)) -> last_value p (List.concat ess) = Some 0%R).
+Proof. exact like_written_local_zero_iff. Qed.
+Print Assumptions C12_like_written_local_zero_iff.
+
 (* explicit card *)
 Theorem C12_cell_card_zero_iff :
   forall (P : prims R) (imp_cards : list (string * list string)) (cards : list card)
@@ -369,6 +393,50 @@ Theorem C12_imp_card_text : forall name body : string,
   imp_cards_of [(name ++ " " ++ body)%string] = Ok [(lower (name ++ " "), split_ws body)].
 Proof. exact imp_card_text. Qed.
 Print Assumptions C12_imp_card_text.
+
+(* cell cards from their text (cellcard.split: re_options, re_void / re_nonvoid /
+   re_likebut, get_cells, LIKE_RE), for ALL cards of these shapes:
+     name material geometry options            (void: float(material) = 0)
+     name material density geometry options
+     name LIKE n BUT options                   (no further "but" in the options)
+   name, n = digits; material / density = words without letter or star (the
+   density without opening parenthesis); geometry = any text without letter or
+   star; the options start with a letter or a star. [nos c] = c is neither. *)
+Theorem C12_void_card_text :
+  forall (T : Type) (Sc : Scalar T) (P : prims T) (name m G opts : string) (z : T),
+    all_digits name = true -> is_empty name = false ->
+    all_chars nos m = true -> all_chars nonblank m = true -> is_empty m = false ->
+    fl P m = Some z -> seqb Sc z (s0 Sc) = true ->
+    all_chars nos G = true -> starts_option opts = true ->
+    card_of_text Sc P (name ++ " " ++ m ++ " " ++ G ++ " " ++ opts) =
+    Ok (Z.of_N (parse_digits name 0%N),
+        (Explicit (" " ++ m)%string (" " ++ G ++ " ")%string, opts)).
+Proof. exact @void_card_text. Qed.
+Print Assumptions C12_void_card_text.
+
+Theorem C12_nonvoid_card_text :
+  forall (T : Type) (Sc : Scalar T) (P : prims T) (name m rho G opts : string) (z : T),
+    all_digits name = true -> is_empty name = false ->
+    all_chars nos m = true -> all_chars nonblank m = true -> is_empty m = false ->
+    fl P m = Some z -> seqb Sc z (s0 Sc) = false ->
+    all_chars nos rho = true -> all_chars (fun c => negb (is_blank c || Ascii.eqb c "(")) rho = true ->
+    is_empty rho = false ->
+    all_chars nos G = true -> starts_option opts = true ->
+    card_of_text Sc P (name ++ " " ++ m ++ " " ++ rho ++ " " ++ G ++ " " ++ opts) =
+    Ok (Z.of_N (parse_digits name 0%N),
+        (Explicit (" " ++ m ++ " " ++ rho)%string (" " ++ G ++ " ")%string, opts)).
+Proof. exact @nonvoid_card_text. Qed.
+Print Assumptions C12_nonvoid_card_text.
+
+Theorem C12_like_card_text :
+  forall (T : Type) (Sc : Scalar T) (P : prims T) (name L ds B rest : string),
+    all_digits name = true -> is_empty name = false -> lower L = "like" ->
+    all_digits ds = true -> is_empty ds = false -> lower B = "but" ->
+    split_last_but rest = None ->
+    card_of_text Sc P (name ++ " " ++ L ++ " " ++ ds ++ " " ++ B ++ rest) =
+    Ok (Z.of_N (parse_digits name 0%N), (Like (Z.of_N (parse_digits ds 0%N)), rest)).
+Proof. exact @like_card_text. Qed.
+Print Assumptions C12_like_card_text.
 
 (* once the card texts are split (cellcard.split / datacard.split / LIKE_RE,
    model C12/Cards.v, tied on the real card contents), parsing the deck text is
@@ -460,3 +528,10 @@ Example C12_example_deck_text :
   exists cells, parse_deck_text RS wP ctexts dtexts [] = Ok (cells, [2%Z]) /\
                 conv_keys RS cells = [1%Z; 3%Z].
 Proof. exact C12_example_deck_text_ok. Qed.
+
+(* the hypotheses of C12_like_written_local_zero_iff with a TRCL on the base card *)
+Example C12_example_like_trcl :
+  loc_imps RS wP (option_tokens "imp:n=1 trcl=(1 0 0)") [(["n"], 1%R)] /\
+  loc_imps RS wP (option_tokens "imp:n=0") [(["n"], 0%R)] /\
+  hd_not_num (option_tokens "imp:n=0").
+Proof. exact C12_example_like_trcl_ok. Qed.
